@@ -208,6 +208,7 @@ def l2(ctx):
 @rule("C05", "L3", floor=2, kind="S",
       desc="the uid maps shared by all requests of a store are mutated under a lock")
 def l3(ctx):
+    from .c06 import map_names
     obs = []
     fi = ctx.own_method(GIT, "_scan_uids")
     cfg = ctx.cfg(fi)
@@ -216,7 +217,7 @@ def l3(ctx):
         a = n.ast
         if n.kind == "stmt" and isinstance(a, (ast.Assign, ast.Delete)):
             for t in a.targets:
-                if isinstance(t, ast.Subscript) and dotted(t.value) in ("self._fname_to_uid", "self._uid_to_fname"):
+                if isinstance(t, ast.Subscript) and dotted(t.value) in map_names(ctx, GIT):
                     sites.append(n)
     if len(sites) < 3:
         raise AnalysisError("GitStore._scan_uids: expected >= 3 map mutations, found %d" % len(sites))
@@ -312,21 +313,57 @@ def l6(ctx):
            "class attributes - a map shared by all collections of the process lets a write to one collection release or "
            "hide a UID of another")
 def l7(ctx):
+    from .c06 import map_names
     obs = []
+
+    def fresh_dict(v):
+        return (isinstance(v, ast.Dict) and not v.keys) or (isinstance(v, ast.Call) and dotted(v.func) in ("dict", "collections.OrderedDict", "OrderedDict")
+                                                             and not v.args and not v.keywords)
+
+    def assigned_in_init(fi, attr):
+        """Values assigned to self.<attr> in the body of *fi* (an __init__)."""
+        out = []
+        for n in walk_local(fi.node):
+            if isinstance(n, (ast.Assign, ast.AnnAssign)) and n.value is not None:
+                tg = n.targets if isinstance(n, ast.Assign) else [n.target]
+                me = fi.node.args.args[0].arg if fi.node.args.args else "self"
+                if any(dotted(t) == me + "." + attr for t in tg):
+                    out.append(n.value)
+        return out
+
     for cq in ("xandikos.store.git.GitStore", "xandikos.store.vdir.VdirStore"):
         ci = ctx.P.cls(cq)
         init = ctx.own_method(cq, "__init__")
-        cfg = ctx.cfg(init)
-        for attr in ("_fname_to_uid", "_uid_to_fname"):
-            fresh = False
-            for n in cfg.stmt_nodes():
-                a = n.ast
-                if n.kind == "stmt" and isinstance(a, (ast.Assign, ast.AnnAssign)) and a.value is not None:
-                    tg = a.targets if isinstance(a, ast.Assign) else [a.target]
-                    if any(dotted(t) == "self." + attr for t in tg):
-                        v = a.value
-                        fresh = (isinstance(v, ast.Dict) and not v.keys) or (isinstance(v, ast.Call) and dotted(v.func) in ("dict", "collections.OrderedDict", "OrderedDict") and not v.args and not v.keywords)
+        inl = ctx.cfgs.inliner
+        for path in map_names(ctx, cq):
+            attr = path.split(".", 1)[1]
+            vals = assigned_in_init(init, attr)
+            fresh = bool(vals) and all(fresh_dict(v) for v in vals)
             shared = [c for c in ci.mro if attr in c.attrs and not (isinstance(c.attrs[attr], ast.Constant) and c.attrs[attr].value is None)]
+            if not fresh and not shared:
+                # the map lives in a helper object the store creates for itself in __init__ (`self.F = Helper()`), and is
+                # re-exported under this name (alias / property) or reached through the helper's methods (flattened name)
+                for n in walk_local(init.node):
+                    if isinstance(n, (ast.Assign, ast.AnnAssign)) and n.value is not None:
+                        for t in (n.targets if isinstance(n, ast.Assign) else [n.target]):
+                            dt = dotted(t)
+                            if not (dt and dt.startswith("self.") and dt.count(".") == 1):
+                                continue
+                            fld = dt.split(".")[1]
+                            hc = inl.field_object(init, fld)
+                            if hc is None:
+                                continue
+                            from ..inline import flat_field
+                            aliases = inl.field_aliases(init, fld)
+                            hinit = ctx.P.lookup_method(hc, "__init__")
+                            if hinit is None:
+                                continue
+                            for y in {x.attr for x in ast.walk(hinit.node) if isinstance(x, ast.Attribute) and isinstance(x.ctx, ast.Store)}:
+                                if flat_field(fld, y, aliases) == attr:
+                                    hv = assigned_in_init(hinit, y)
+                                    hshared = [c for c in hc.mro if y in c.attrs and not (isinstance(c.attrs[y], ast.Constant) and c.attrs[y].value is None)]
+                                    if hv and all(fresh_dict(v) for v in hv) and not hshared:
+                                        fresh = True
             obs.append(ctx.ob(fresh and not shared, cq + "." + attr, init.where, "%s is per store object" % attr,
                               "assigned a new dict in __init__, no class-level value",
                               "%s.%s is %s: every store object of the process shares one map, so a scan of one collection drops or hides the UIDs of another"
